@@ -20,9 +20,9 @@ class Complement:
         gfapy.line.edge.Link: The inverted link.
     """
     l = self.clone()
-    l.from_segment = self.to_segment
+    l.from_segment = self.to_name
     l.from_orient = gfapy.invert(self.to_orient)
-    l.to_segment = self.from_segment
+    l.to_segment = self.from_name
     l.to_orient = gfapy.invert(self.from_orient)
     l.overlap = self.overlap.complement()
     return l
